@@ -406,8 +406,6 @@ def rule_l2(chk: Check, ix: Index):
                 bad = f"on a new line the record must gain that line once and remember its number; effects {line_eff}"
             elif not new_line[0] and line_eff:
                 bad = f"a line already recorded is recorded again; effects {line_eff}"
-            elif new_line[0] and eff.index("self.contline += state.line") > eff.index(want_text) and False:
-                bad = ""
         chk.require(not bad and bool(ps), "L2-accumulation", q, f.where,
                     f"{q.split('.')[1]} must append exactly {what} to the text and make the token's `line` hold every physical line the text "
                     f"lies on exactly once (a multi-line string's first line twice, or its last line missing, gives wrong error text and "
@@ -529,6 +527,22 @@ def rule_l2(chk: Check, ix: Index):
     chk.require(ok, "L2-accumulation", "handle_end_progs:unterminated-string", he.where,
                 "when an open string neither ends on the current line nor continues (triple quote / backslash), the tokenizer must raise; "
                 "falling through re-scans the string's text as code and lets the next line close it")
+    # a literal part continued with backslash-newline is joined whatever kind of literal it is (plain string or the text part of
+    # an f-string): a path that neither joins nor raises has established that the line is not continued
+    chk.count("L2-accumulation")
+    ok = True
+    try:
+        for pth in _sp3(he.node.body, split_bool=True):
+            c = {x[1]: x[2] for x in pth if x[0] == "cond"}
+            if c.get("state.pos == 0") is False and c.get("state.in_multi_line_string()") is False and pth[-1][1] != "raise" \
+                    and not any(x[0] == "do" and any(a in x[1] for a in acc_calls) for x in pth):
+                if c.get("state.in_continued_string()") is not False:
+                    ok = False
+    except AnalysisError:
+        ok = False
+    chk.require(ok, "L2-accumulation", "handle_end_progs:continued-line-joined", he.where,
+                "some path leaves the rest of the line unjoined without having tested `state.in_continued_string()`: the text part of a "
+                "one-quote f-string continued with backslash-newline is then scanned as code")
     rs = ix.get("EndProg.reset")
     chk.count("L2-accumulation")
     chk.require(sorted(norm_stmt(s) for s in rs.node.body) == ["self.contline = ''", "self.start = start", "self.text = ''", "self.upto = 0"],
